@@ -14,7 +14,6 @@ import (
 	"math/big"
 	"os"
 	"path/filepath"
-	"sync"
 	"time"
 
 	"github.com/icon-project/goloop/common"
@@ -79,11 +78,11 @@ type chainStub struct {
 	reg      *regulator
 }
 
-func (c *chainStub) MaxBlockTxBytes() int          { return c.maxBytes }
-func (c *chainStub) Regulator() module.Regulator   { return c.reg }
-func (c *chainStub) NormalTxPoolSize() int         { return 5000 }
-func (c *chainStub) PatchTxPoolSize() int          { return 1000 }
-func (c *chainStub) ConcurrencyLevel() int         { return 1 }
+func (c *chainStub) MaxBlockTxBytes() int              { return c.maxBytes }
+func (c *chainStub) Regulator() module.Regulator       { return c.reg }
+func (c *chainStub) NormalTxPoolSize() int             { return 5000 }
+func (c *chainStub) PatchTxPoolSize() int              { return 1000 }
+func (c *chainStub) ConcurrencyLevel() int             { return 1 }
 func (c *chainStub) TransactionTimeout() time.Duration { return 5 * time.Second }
 func (c *chainStub) MetricContext() context.Context    { return context.Background() }
 
@@ -203,13 +202,8 @@ func (e *env) waitFlush() { txlocator.VerifWaitFlush(e.lm) }
 // ---------------------------------------------------------------- executing a transition
 
 type execCB struct {
-	mu       sync.Mutex
-	valDone  bool
-	valErr   error
-	chVal    chan error
-	chExe    chan error
-	cancelAt bool // cancel right after validation
-	cancel   func() bool
+	chVal chan error
+	chExe chan error
 }
 
 func (c *execCB) OnValidate(tr module.Transition, err error) {
